@@ -114,7 +114,7 @@ class C09(Prop):
     def cases(self, rng: random.Random, tier: str) -> Iterable[dict]:
         # every dedicated family is visited at least twice per run, whatever the seed; the rest is drawn at random
         closure_variant = 0
-        forced = [0.04, 0.11, 0.16, 0.16, 0.21, 0.245, 0.28, 0.32, 0.35, 0.35, 0.35, 0.38, 0.41, 0.45, 0.48, 0.7, 0.7, 0.7] * 2
+        forced = [0.04, 0.11, 0.16, 0.16, 0.21, 0.245, 0.28, 0.28, 0.32, 0.35, 0.35, 0.35, 0.38, 0.41, 0.45, 0.48, 0.7, 0.7, 0.7] * 2
         while True:
             r = forced.pop() if forced else rng.random()
             if r < 0.08:
@@ -147,11 +147,12 @@ class C09(Prop):
                          {"name": "big", "kind": "fn", "params": [["x", None]], "dataOuts": ["b"], "body": {"b": "tag", "t": "big"}},
                          {"name": "lab", "kind": "fn", "params": [["x", None]], "dataOuts": ["label"], "body": {"b": "tag", "t": "lab"}, "cache": True}]
                 rng.shuffle(nodes)
-                seq = [v0, v0, bool(v0), v0, bool(v0)]
-                if rng.random() < 0.5:
-                    seq = [bool(v0), bool(v0), v0, bool(v0)]
+                a, b2 = (v0, bool(v0)) if rng.random() < 0.5 else (bool(v0), v0)
+                r1, r2 = ("sync", "async") if rng.random() < 0.6 else ("async", "sync")
+                # every runner meets the SAME argument again (its own earlier entry, and the other runner's), then the equal-but-distinct one
+                seq = [(a, r1), (a, r2), (a, r1), (b2, r1), (b2, r2), (b2, r1), (a, r2)]
                 yield {"kind": "runs", "program": [{"name": "g0", "nodes": nodes, "bound": []}],
-                       "runs": [{"values": [["x", v]], "runner": ("sync" if j % 2 == 0 else "async")} for j, v in enumerate(seq[: rng.randint(3, len(seq))])],
+                       "runs": [{"values": [["x", v]], "runner": rn} for v, rn in seq[: rng.randint(3, len(seq))]],
                        "backend": rng.choice(["mem", "mem", "lru4", "disk"])}
                 continue
             if 0.30 <= r < 0.34:
